@@ -107,6 +107,7 @@ def gen_cases(tier, seed):
         cfg["seg"] = rng.choice([3, 4, 5, 10])  # prefixes which are not a multiple of the checksum word size
         cases.append({"cfg": cfg, "side": rng.choice("SD") if i % 3 else "S", "round": rng.randrange(0, 14), "wrong": rng.random() < 0.1,
                       "drop": None, "rand": seed * 1_000_003 + i})
+        cfg["scribble_pdus"], cfg["scribble_user"] = rng.random() < 0.2, rng.random() < 0.2
         cases[-1]["pacing"] = rng.choice([None, None, {"src_calls": 3}, {"src_calls": 6}, {"dst_calls": 3}, {"src_calls": 2, "dst_calls": 2}, {"dst_idle": 2}, {"src_idle": 2, "dst_calls": 2}])
         if i % 3 == 1:
             # before (or in the same round as) the cancel the user issues a put request towards another entity: refused, no influence
